@@ -59,6 +59,14 @@ RAW_SCRIPTS = {
                                          "while True:\n    p = pair(3)\n    mon.write(p[0] + p[1])\n    q = grow(2)\n    mon.write(q[2] + out[0] + acc[0])\n    mon.write(pair(5)[1])\n",
     "raw-negative-index-of-temporaries": "def pair(n):\n    return [n, n + 1, n + 2]\nwhile True:\n    last = pair(4)[-1]\n    mon.write(last)\n    sq = [i * i for i in range(4)][-2]\n    mon.write(sq)\n"
                                          "    mon.write([7, 8, 9][-3])\n    mon.write(pair(1)[-2] + pair(2)[0])\n",
+    # sliding-window bounds `len(xs) - k` over a list that becomes shorter than the window (the bound is negative in Python: no iteration)
+    "raw-window-over-shrinking-list": "q = [9, 8, 7, 6]\ndef pairs(xs):\n    t = 0\n    for k in range(len(xs) - 2):\n        t += xs[k] * xs[k + 2]\n    return t\ndef steps(xs):\n    i = 0\n"
+                                      "    while i < len(xs) - 3:\n        i += 1\n    return i\ndef drop_first(xs):\n    if len(xs) - 1 >= 0:\n        return xs[0]\n    return 0\n"
+                                      "while True:\n    mon.write(pairs(q))\n    q.remove(drop_first(q))\n    mon.write(pairs(q) + steps(q))\n    q.remove(drop_first(q))\n    mon.write(pairs(q) + steps(q))\n"
+                                      "    q.remove(drop_first(q))\n    mon.write(pairs(q) + steps(q))\n    q.append(8)\n    q.append(7)\n    q.append(6)\n",
+    # a helper builds a local list from constants on EVERY call and changes it (a fresh list each time, as in Python)
+    "raw-helper-local-literal-mutated": "def tail(v):\n    w = [5, 7, 9]\n    w.remove(w[0])\n    return w[1] + v\ndef grow(v):\n    g = [1, 2]\n    g.append(v)\n    return g[2] + g[0]\n"
+                                        "def table(k):\n    t = [10, 20, 30]\n    return t[k]\nwhile True:\n    mon.write(tail(1))\n    mon.write(grow(4))\n    mon.write(tail(2) + table(2))\n    mon.write(grow(6))\n",
     "raw-reassign-then-grow-and-shrink": "buf = [4, 5, 6]\nwhile True:\n    buf = [9, 8, 7]\n    buf.append(1)\n    buf.append(2)\n    mon.write(buf[0] + buf[4])\n    buf.remove(1)\n    buf.remove(2)\n",
 }
 
